@@ -1,4 +1,7 @@
 """C01 -- prefix-preserving permutation (IPv4 and IPv6)."""
+import ipaddress
+import re
+
 from .. import load
 from ..ctx import HarnessError
 from ..gen import ipgen
@@ -67,6 +70,88 @@ def _report_pairs(ctx, case, L, pairs, fmap, tag):
     return True
 
 
+_V4TOK = re.compile(r"(?<![\d.])\d+\.\d+\.\d+\.\d+(?![\d.])")
+_V6TOK = re.compile(r"(?<![0-9A-Fa-f:])[0-9A-Fa-f]*:[0-9A-Fa-f:]+")
+
+
+def _text_level(ctx, case, cfg, addrs, rng, L, B, pranges):
+    """The mapping as a READER OF THE OUTPUT sees it: through the text function, on non-mask, non-preserved
+    addresses - including "trap" originals whose image is mask-shaped, next to their nearest neighbours - written
+    in the contexts addresses are written in (alone, with a /len, as the ends of a range, with a port, in brackets).
+    One address must have ONE image whatever surrounds it, and that image must extend the flip table."""
+    nc = load.nc()
+    fam = cfg["fam"]
+    tanon = ipgen.build(cfg)
+    sub = [a for a in addrs[:300 if fam == 4 else 120]]
+    if fam == 4:
+        try:
+            for m in rng.sample(ipgen.MASKS[2:-2], 6):
+                x = ipgen.build(cfg).deanonymize(m)
+                sub += [x, x ^ (1 << B) if B < 32 else x, x ^ (1 << min(31, B + 1))]
+        except Exception:
+            pass
+    mk = ipaddress.IPv4Address if fam == 4 else ipaddress.IPv6Address
+    tokre = _V4TOK if fam == 4 else _V6TOK
+    sub = [a for a in sub if not (fam == 4 and ipgen.is_mask_ref(a)) and not any(lo <= a <= hi for lo, hi in pranges)]
+    tt = FlipTable(L, B)
+    timg, tpre = {}, {}
+    i = 0
+    while i < len(sub):
+        ctxkind = rng.choice(["plain", "plain", "cidr", "range", "range-sp", "pair", "port", "paren"])
+        if fam == 6 and ctxkind == "port":
+            ctxkind = "cidr"
+        group = sub[i:i + (2 if ctxkind in ("range", "range-sp", "pair") else 1)]
+        i += len(group)
+        t = [str(mk(a)) for a in group]
+        if ctxkind == "plain":
+            line = "ip address " + t[0]
+        elif ctxkind == "cidr":
+            line = " network %s/%d area 0" % (t[0], rng.randint(0, L))
+        elif ctxkind == "port":
+            line = "server %s:%d" % (t[0], rng.randint(1, 65535))
+        elif ctxkind == "paren":
+            line = "log (%s) [%s]" % (t[0], t[0])
+            group = [group[0], group[0]]
+        elif len(group) == 1:
+            line = "host " + t[0]
+        elif ctxkind == "range":
+            line = " range %s-%s" % (t[0], t[1])
+        elif ctxkind == "range-sp":
+            line = " pool %s - %s" % (t[0], t[1])
+        else:
+            line = " peer %s, %s" % (t[0], t[1])
+        out = nc.ip.anonymize_ip_addr(tanon, line)
+        toks = tokre.findall(out)
+        imgs = []
+        try:
+            imgs = [int(mk(x)) for x in toks]
+        except ValueError:
+            pass
+        if len(imgs) != len(group):
+            ctx.violation(dict(case, addrs=group, line=line), "text-image-not-an-address", "anonymize_ip_addr(%r) = %r" % (line, out))
+            return False
+        ctx.setadd("text_contexts", ctxkind)
+        for a, fa in zip(group, imgs):
+            ctx.count("text_level_observations")
+            if a in tpre and tpre[a][0] != fa:
+                ctx.violation(dict(case, addrs=[a], line=line), "one-address-two-images:text-level",
+                              "%s became %s in %r but %s in %r" % (mk(a), mk(fa), line, mk(tpre[a][0]), tpre[a][1]))
+                return False
+            tpre.setdefault(a, (fa, line))
+            if fa in timg and timg[fa] != a:
+                ctx.violation(dict(case, addrs=[a, timg[fa]], line=line), "collision:text-level",
+                              "through the text function %s and %s both become %s" % (mk(a), mk(timg[fa]), mk(fa)))
+                return False
+            timg[fa] = a
+            tt.observe(a, fa)
+    if tt.conflict is not None:
+        i, a, fa = tt.conflict
+        ctx.violation(dict(case, addrs=[a]), "flip-not-function-of-prefix:text-level",
+                      "through the text function, bit %d of the image of %s depends on more than its %d leading bits" % (i, mk(a), i))
+        return False
+    return True
+
+
 def check_case(ctx, case):
     kind = case["kind"]
     if kind == "sampled":
@@ -122,43 +207,8 @@ def _sampled(ctx, case):
                           "with preserved addresses left as written, bit %d of the output depends on more than the %d leading bits "
                           "(address %s -> %s; preserved networks %r)" % (i, i, a, fa, cfg.get("pa")))
             return
-    if cfg["fam"] == 4:
-        # the mapping as a READER OF THE OUTPUT sees it: through the text function, on non-mask, non-preserved
-        # addresses - including "trap" originals whose image is mask-shaped, next to their nearest neighbours
-        import ipaddress
-
-        nc = load.nc()
-        tanon = ipgen.build(cfg)
-        sub = [a for a in addrs[:300]]
-        try:
-            for m in rng.sample(ipgen.MASKS[2:-2], 6):
-                x = ipgen.build(cfg).deanonymize(m)
-                sub += [x, x ^ (1 << B) if B < 32 else x, x ^ (1 << min(31, B + 1))]
-        except Exception:
-            pass
-        tt = FlipTable(L, B)
-        timg = {}
-        for a in sub:
-            if ipgen.is_mask_ref(a) or any(lo <= a <= hi for lo, hi in pranges):
-                continue
-            out = nc.ip.anonymize_ip_addr(tanon, str(ipaddress.IPv4Address(a)))
-            try:
-                fa = int(ipaddress.IPv4Address(out))
-            except ValueError:
-                ctx.violation(dict(case, addrs=[a]), "text-image-not-an-address", "anonymize_ip_addr(%r) = %r" % (str(ipaddress.IPv4Address(a)), out))
-                return
-            ctx.count("text_level_observations")
-            if fa in timg and timg[fa] != a:
-                ctx.violation(dict(case, addrs=[a, timg[fa]]), "collision:text-level",
-                              "through the text function %s and %s both become %s" % (ipaddress.IPv4Address(a), ipaddress.IPv4Address(timg[fa]), out))
-                return
-            timg[fa] = a
-            tt.observe(a, fa)
-        if tt.conflict is not None:
-            i, a, fa = tt.conflict
-            ctx.violation(dict(case, addrs=[a]), "flip-not-function-of-prefix:text-level",
-                          "through the text function, bit %d of the image of %s depends on more than its %d leading bits" % (i, ipaddress.IPv4Address(a), i))
-            return
+    if not _text_level(ctx, case, cfg, addrs, rng, L, B, pranges):
+        return
     if ft.suffix_bad is not None and B:
         a, fa = ft.suffix_bad
         # host bits differ -> two addresses sharing all leading bits map apart / together wrongly
